@@ -3,6 +3,7 @@ package main
 import (
 	"encoding/json"
 	"fmt"
+	"github.com/jackc/pgx/v4/minipg"
 	"regexp"
 	"strings"
 	"time"
@@ -46,6 +47,9 @@ type c18Replay struct {
 	Oracle  string       `json:"oracle"`
 	// Then: a second request served after Request on the same servers (oracle "history")
 	Then *apix.Request `json:"then,omitempty"`
+	// oracle "handler-fault": the database fails at this round trip of the request
+	FaultAt   int    `json:"fault_at_round_trip,omitempty"`
+	FaultMode string `json:"fault_mode,omitempty"`
 	// document variant (x-read-only mark of one operation changed)
 	IsVariant   bool   `json:"is_variant,omitempty"`
 	VarTemplate string `json:"var_template,omitempty"`
@@ -348,6 +352,59 @@ func (w *c18World) serve(r apix.Request) (off, on apix.Obs, nondet string) {
 	return off, on, nondet
 }
 
+// handlerFaults: with write operations disabled, the canonical request of every
+// operation is served on a fresh server whose database fails at round trip k of
+// the request, once by panicking inside the driver and once by returning an error,
+// for every k. Whatever the handler and the router's recovery do with the failure,
+// nothing a state-changing operation does may happen.
+func (w *c18World) handlerFaults(c *report.Ctx) {
+	var n int64
+	for _, op := range w.ops {
+		b, ok := w.base[op.OperationID]
+		if !ok {
+			continue
+		}
+		// number of round trips of the undisturbed request
+		probe := apix.NewEnv(false)
+		rt0 := probe.Pool.DB().RoundTrips()
+		probe.Serve(b.Req)
+		trips := probe.Pool.DB().RoundTrips() - rt0
+		probe.Close()
+		for k := 0; k < trips; k++ {
+			for _, mode := range []string{"panic", "error"} {
+				env := apix.NewEnv(false)
+				db := env.Pool.DB()
+				start := db.RoundTrips()
+				seen := 0
+				db.SetHooks(&minipg.Hooks{Before: func(rt minipg.RoundTrip) error {
+					_ = start
+					seen++
+					if seen-1 == k {
+						if mode == "panic" {
+							panic("verif: database driver panics")
+						}
+						return fmt.Errorf("verif: connection reset")
+					}
+					return nil
+				}})
+				o := env.Serve(b.Req)
+				db.SetHooks(nil)
+				sh, tr, dbc, p2p := env.Effects()
+				env.Close()
+				n++
+				c.Stats.Evaluations++
+				c.Stats.Class(fmt.Sprintf("writes off, database %s at round trip %d of %s: status %d", mode, k, op.OperationID, o.Status))
+				if sh > 0 || len(tr) > 0 || dbc || p2p > 0 {
+					c.Violation("C18/state-changing-effect-in-read-only-mode/failing-handler/"+op.OperationID,
+						fmt.Sprintf("write operations disabled; %s while the database %ss at round trip %d: answered %d %q, and shutdown signals=%d, decryption triggers=%v, database changed=%v, p2p messages=%d", b.Req, mode, k, o.Status, o.Body, sh, tr, dbc, p2p),
+						c18Replay{Request: b.Req, Oracle: "handler-fault", FaultAt: k, FaultMode: mode})
+				}
+			}
+		}
+	}
+	c.Stats.Count("requests_with_a_failing_database_round_trip", n)
+}
+
 // sanity makes sure the check is not vacuous and that read-only operations
 // stay reachable.
 func (w *c18World) sanity(c *report.Ctx) {
@@ -397,7 +454,7 @@ func (w *c18World) sanity(c *report.Ctx) {
 func c18() *report.Check {
 	return &report.Check{
 		Level: "exploration",
-		Rule: "every request of the generated space (7 methods x paths from every OpenAPI template by parameter substitution and spelling mutation x 3 bodies, built by net/http's request parser; plus URL objects with RawPath != Path) served by the real router with writes off and on, twice each, and under every iteration order of every kproapi map range met; after each request the canonical requests of its template are served again on the same servers (two-request histories) and the decision compared with the fresh servers' one; two requests in flight with writes off: every pair of {canonical request of each operation, one undefined-method request per template} under every interleaving of the two handler threads with at most 2 (thorough 3) preemptions at statement granularity of keyper/kproapi and keyper/kprapi (cooperative scheduler over sources instrumented with yield points); " +
+		Rule: "every request of the generated space (7 methods x paths from every OpenAPI template by parameter substitution and spelling mutation x 3 bodies, built by net/http's request parser; plus URL objects with RawPath != Path) served by the real router with writes off and on, twice each, and under every iteration order of every kproapi map range met; after each request the canonical requests of its template are served again on the same servers (two-request histories) and the decision compared with the fresh servers' one; with writes off the canonical request of every operation with the database panicking / failing at every round trip; two requests in flight with writes off: every pair of {canonical request of each operation, one undefined-method request per template} under every interleaving of the two handler threads with at most 2 (thorough 3) preemptions at statement granularity of keyper/kproapi and keyper/kprapi (cooperative scheduler over sources instrumented with yield points); " +
 			"oracles: writes off => no receive on trigger/shutdown channel, no DB change, no handler of an operation not marked x-read-only reached; read-only operations answer identically in both modes; same verdict under every map order and on repetition; classes = status + who answered + effects, per mode",
 		Assumptions: []string{
 			"the request reaches the router as net/http's ReadRequest parses it (the server's own parser); request lines it refuses never reach the router and are counted as a class",
@@ -559,6 +616,11 @@ func c18() *report.Check {
 					}
 				}
 			}
+			// handlers that fail: the database panics / returns an error at every round trip
+			// of every read-only operation's canonical request
+			if c.Shard == 1%c.NShards {
+				w.handlerFaults(c)
+			}
 			// two requests in flight (cooperative scheduler over the instrumented sources)
 			w.concurrent(c)
 			c.Stats.Count("document_variant_requests", nVar)
@@ -586,6 +648,27 @@ func c18() *report.Check {
 				return ""
 			}
 			maporder.Chooser = nil
+			if rp.Oracle == "handler-fault" {
+				env := apix.NewEnv(false)
+				defer env.Close()
+				seen := 0
+				env.Pool.DB().SetHooks(&minipg.Hooks{Before: func(minipg.RoundTrip) error {
+					seen++
+					if seen-1 == rp.FaultAt {
+						if rp.FaultMode == "panic" {
+							panic("verif: database driver panics")
+						}
+						return fmt.Errorf("verif: connection reset")
+					}
+					return nil
+				}})
+				o := env.Serve(rp.Request)
+				env.Pool.DB().SetHooks(nil)
+				if sh, tr, dbc, p2p := env.Effects(); sh > 0 || len(tr) > 0 || dbc || p2p > 0 {
+					return fmt.Sprintf("answered %d %q; shutdown signals=%d, decryption triggers=%v, database changed=%v, p2p messages=%d", o.Status, o.Body, sh, tr, dbc, p2p)
+				}
+				return ""
+			}
 			if rp.Oracle == "concurrent" {
 				cc := &report.Ctx{Property: c.Property, Stats: &report.Stats{}, NShards: 1}
 				w.sanity(cc)
